@@ -811,6 +811,7 @@ class ProximityStump(BaseClassifier):
         self.random_state = random_state
         self.get_distance_measure = get_distance_measure
         self.distance_measure = distance_measure
+        self.get_exemplars = get_exemplars
         self.pick_exemplars = get_exemplars
         self.get_gain = get_gain
         self.verbosity = verbosity
